@@ -309,6 +309,15 @@ def check_circuit_side(ctx):
     shape.match(ctx, "R12.6", CIRC + ".Circuit.is_mixed", r, "self.dom.count(bit) and self.dom.count(qubit) or any((layer.cod.count(bit) and layer.cod.count(qubit) for layer in self.layers)) "
                 "or any((box.is_mixed for box in self.boxes))", {}, body=fn.body, mod=CIRC, node=fn, sig="is-mixed",
                 required="mixed as soon as one box is mixed or bits and qubits coexist on the domain or after any layer")
+    # which boxes count as classical (not doubled by the mixed functor): digits first, so that a box without wires (a stochastic weight) is classical
+    bi = m.func(CIRC + ".Box.__init__")
+    ctx.analysed(CIRC + ".Box.__init__")
+    blk = next((s for s in bi.body if isinstance(s, ast.If) and ast.unparse(s.test) in ("not is_mixed", "is_mixed")), None)
+    ctx.need(blk is not None, "circuit.Box.__init__ does not decide `classical` under `not is_mixed`")
+    inner_ = blk.body if ast.unparse(blk.test) == "not is_mixed" else blk.orelse
+    shape.match_stmts(ctx, "R12.3", CIRC + ".Box.__init__:classical", inner_,
+                      ["if all((isinstance(x, Digit) for x in dom @ cod)):\n    self.classical = True\nelif all((isinstance(x, Qudit) for x in dom @ cod)):\n    self.classical = False\nelse:\n    raise ValueError('dom and cod should be Digits only or Qudits only.')"],
+                      mod=CIRC, node=blk, sig="classical-flag", exact=True, required="pure boxes are classical when all their wires are digits (tested first: also when they have no wire), quantum when all are qudits, refused otherwise")
     # the mode is forwarded wherever the caller's options are
     n = 0
     for q in (CIRC + ".Circuit.eval", CIRC + ".Sum.eval"):
